@@ -160,6 +160,12 @@ def ambiguous(u):
 
     out += [{"vals": [1, 2 ** 40]}, {"vals": _array.array("q", [1, 2 ** 40])}, {"vals": [1] * 100 + [2 ** 40]}, {"vals": _array.array("q", [1, 2])}, {"vals": [1] * 300},
             {"id": 7, "name": "x"}, {"id": 7, "note2": "x", "name": "y"}, {"id": 7, "title": "t"}, {"id": 7}]
+    import collections as _collections
+
+    Hint = _collections.namedtuple("Hint", ["branch", "value"])  # a tuple subclass is a tuple
+    out += [Hint("A", {"x": 1}), Hint("E", "B"), Hint("int", 7), Hint("Nope", 1), Hint("map", {"k": 1})]
+    # map data whose keys merely LOOK like the record hint
+    out += [{"-type": 1, "k": 2}, {"-type": 5}, ("map", {"-type": 3})]
     out += [("A", {"x": 1}), ("ZA", {"x": 1}), ("Nope", {"x": 1}), ("E", "B"), ("E2", "B"), ("Nope", "B")]
     out += [5, 1.5, 1, b"ab", "A", "B", "Z", None, True, [1], {"k": 1}, {}, datetime.date(2020, 2, 29), ("Unknown", 1), ("int", 7), ("double", 2.5), ("float", 2.5)]
     return out
